@@ -17,6 +17,8 @@ import GambitV.Gen.PyBulk
 import GambitV.Gen.PyConcat
 import GambitV.Gen.PyCalcSig
 import GambitV.Gen.PySigList
+import GambitV.Gen.PyParams
+import GambitV.Model.Params
 import GambitV.Model.Bulk
 import GambitV.Model.Indexing
 import GambitV.Spec.Taxonomy
@@ -221,5 +223,25 @@ def sigListMuts (sigs : List (List Nat)) (ops : List GambitV.Mut) (real : String
   cmp "SignatureList.__setitem__ / __delitem__ / insert"
     (Gen.siglist_setitem.untranslatable || Gen.siglist_insert.untranslatable || Gen.siglist_delitem.untranslatable)
     (natListsOf (xs.map (fun l => l.map Int.toNat)) ++ " " ++ natsOf errs) real
+
+def pyKS (s : GambitV.KSpec) : Py.KSpec := { k := (s.k : Int), pre := s.pre }
+def textOfBytes (b : List UInt8) : List Char := b.map (fun c => Char.ofNat c.toNat)
+def decStr : GambitV.Decision → String
+  | .error => "error"
+  | .run u => s!"run {u.k}:{hexOf u.pre}"
+def genDecStr : Py.Res (Option Py.KSpec) → String
+  | .ok (some u) => s!"run {u.k}:{hexOf u.pre}"
+  | .ok none => "run-without-parameters"
+  | .raised _ => "error"
+  | .fuelOut => "!fuel"
+
+/-- the parameter decision of `gambit dist` / `signatures create`: the fragment translated from the current source against the model's table -/
+def distParams (ek : Option Nat) (ep : Option (List UInt8)) (q r : Option GambitV.KSpec) (d : GambitV.KSpec) (model : GambitV.Decision) : Option String :=
+  cmp "dist_cmd (parameter reconciliation)" Gen.dist_params.untranslatable
+    (genDecStr (Gen.dist_params (pyKS d) (ek.map (fun (n : Nat) => (n : Int))) (ep.map textOfBytes) (q.map pyKS) (r.map pyKS))) (decStr model)
+
+def createParams (ek : Option Nat) (ep : Option (List UInt8)) (dbParams : Bool) (db : Option GambitV.KSpec) (d : GambitV.KSpec) (model : GambitV.Decision) : Option String :=
+  cmp "signatures create (parameter selection)" Gen.create_params.untranslatable
+    (genDecStr (Gen.create_params (pyKS d) (db.map pyKS) (ek.map (fun (n : Nat) => (n : Int))) (ep.map textOfBytes) dbParams)) (decStr model)
 
 end Driver.PyGen
